@@ -3,4 +3,5 @@
 (* ("which runs is undefined"): the contract-level properties do not depend *)
 (* on the choice rule.                                                      *)
 EXTENDS MC_Faults
+anyInitChoices == UNION {{<<DT(a), DA(b), DO(1)>>, <<DA(b), DT(a), DO(1)>>} : a \in 1..2, b \in 1..2}
 =============================================================================
